@@ -85,7 +85,7 @@ static Bytes apply_edits(FuzzedDataProvider &fdp) {
   static const uint64_t boundary[] = {0, 1, 2, 0x7f, 0x80, 0xfe, 0xff, 0x100, 0xffff, 0x10000, 0x7fffffff, 0x80000000ull, 0xffffffffull, 0xffffffffffffffffull};
   for (int e = 0; e < nedits && fdp.remaining_bytes() > 0; ++e) {
     auto ch = chunks_of(f);
-    int kind = fdp.ConsumeIntegralInRange<int>(0, 7);
+    int kind = fdp.ConsumeIntegralInRange<int>(0, 8);
     if (kind <= 3) {  // numeric field substitution: pick a field start in the file header or a chunk (sub-)header
       std::vector<std::pair<size_t, int>> fields = {{8, 1}, {9, 1}, {10, 1}, {11, 1}, {12, 4}, {16, 8}, {24, 8}, {32, 8}, {40, 8}};
       for (auto &c : ch) {
@@ -107,6 +107,22 @@ static Bytes apply_edits(FuzzedDataProvider &fdp) {
       if (how == 0) f.erase(f.begin() + (long)ch[i].begin, f.begin() + (long)ch[i].end);
       else if (how == 1) f.insert(f.begin() + (long)ch[i].begin, c.begin(), c.end());
       else { size_t j = fdp.ConsumeIntegralInRange<size_t>(0, ch.size() - 1); f.insert(f.begin() + (long)ch[j].begin, c.begin(), c.end()); }
+    } else if (kind == 8 && !ch.empty()) {  // shorten a chunk's body but keep the framing consistent (length and padding recomputed)
+      size_t i = fdp.ConsumeIntegralInRange<size_t>(0, ch.size() - 1);
+      size_t pad = f[ch[i].begin + 5], body = ch[i].end - ch[i].payload >= pad ? ch[i].end - ch[i].payload - pad : 0;
+      static const size_t cuts[] = {0, 12, 16, 24, 32};
+      size_t nb = fdp.ConsumeBool() ? std::min(body, cuts[fdp.ConsumeIntegralInRange<size_t>(0, 4)]) : fdp.ConsumeIntegralInRange<size_t>(0, body);
+      size_t npad = (8 - nb % 8) % 8;
+      Bytes c(f.begin() + (long)ch[i].begin, f.begin() + (long)(ch[i].payload + nb));
+      // optionally also change one of the one-byte enum / valence fields of the sub-header (entity, valence, encodings):
+      // a body that is consistent with a *different* encoding is only reachable by changing both at once
+      if (fdp.ConsumeBool() && c.size() >= 16 + 16) c[16 + 12 + fdp.ConsumeIntegralInRange<size_t>(0, 3)] = (uint8_t)fdp.ConsumeIntegralInRange<int>(0, 4);
+      c[5] = (uint8_t)npad;
+      uint64_t nl = nb + npad;
+      for (int k = 0; k < 8; ++k) c[8 + (size_t)k] = (uint8_t)(nl >> (8 * k));
+      c.insert(c.end(), npad, 0);
+      f.erase(f.begin() + (long)ch[i].begin, f.begin() + (long)ch[i].end);
+      f.insert(f.begin() + (long)ch[i].begin, c.begin(), c.end());
     } else if (kind == 5) {  // truncate
       f.resize(fdp.ConsumeIntegralInRange<size_t>(0, f.size()));
     } else if (kind == 6 && !f.empty()) {  // overwrite a few raw bytes
